@@ -43,7 +43,7 @@ type C13SeqCase struct {
 
 // C13Op is one step.
 type C13Op struct {
-	Op       string `json:"op"` // resp_ok, resp_fail, resp_panic, read_ok, read_trunc, read_corrupt, explicit, swap
+	Op       string `json:"op"` // resp_ok, resp_fail, resp_panic, read_ok, read_trunc, read_corrupt, explicit, swap, mux_own
 	Encoding string `json:"encoding,omitempty"`
 	Size     int    `json:"size,omitempty"`
 	Provider string `json:"provider,omitempty"` // swap
@@ -82,7 +82,7 @@ func genC13Seq(t *rapid.T) C13SeqCase {
 	c := C13SeqCase{Provider: rapid.SampledFrom(c13Providers).Draw(t, "provider")}
 	n := rapid.IntRange(1, 25).Draw(t, "nops")
 	for i := 0; i < n; i++ {
-		op := C13Op{Op: rapid.SampledFrom([]string{"resp_ok", "resp_ok", "resp_fail", "resp_panic", "read_ok", "read_trunc", "read_corrupt", "explicit", "swap"}).Draw(t, "op")}
+		op := C13Op{Op: rapid.SampledFrom([]string{"resp_ok", "resp_ok", "resp_fail", "resp_panic", "read_ok", "read_trunc", "read_corrupt", "explicit", "swap", "mux_own"}).Draw(t, "op")}
 		op.Encoding = rapid.SampledFrom([]string{"gzip", "deflate"}).Draw(t, "encoding")
 		op.Size = rapid.SampledFrom([]int{0, 1, 100, 5000, 70000}).Draw(t, "size")
 		op.FailAt = rapid.IntRange(0, 200).Draw(t, "failat")
@@ -242,6 +242,31 @@ func checkC13Seq(c C13SeqCase) (vs []*Violation) {
 			got, derr := decodeBody(op.Encoding, rec.Body.Bytes())
 			if derr != nil || !bytes.Equal(got, payload(op.Size, 7)) {
 				vs = append(vs, viol("", "%s: explicit writer output does not decode (err=%v)", where, derr))
+			}
+		case "mux_own":
+			// a second container that is not mounted on "/": net/http's mux answers by itself (404 for
+			// a path outside every root, 301 for a path it wants cleaned); the compressor ServeHTTP
+			// acquired for that response is released like any other
+			ct2 := restful.NewContainer()
+			ct2.EnableContentEncoding(true)
+			api := new(restful.WebService)
+			api.Path("/api")
+			api.Route(api.GET("/x").To(func(req *restful.Request, resp *restful.Response) { resp.Write([]byte("x")) }))
+			ct2.Add(api)
+			path := "/nowhere"
+			if op.Size > 100 {
+				path = "/api//x"
+			}
+			hr := httptest.NewRequest("GET", "http://h"+path, nil)
+			hr.Header.Set("Accept-Encoding", op.Encoding)
+			w := httptest.NewRecorder()
+			var pan interface{}
+			func() { defer func() { pan = recover() }(); ct2.ServeHTTP(w, hr) }()
+			if pan != nil {
+				vs = append(vs, viol("", "%s: panic escaped: %v", where, pan))
+			}
+			if _, err := decodeBody(w.Header().Get("Content-Encoding"), w.Body.Bytes()); err != nil {
+				vs = append(vs, viol("", "%s: the mux's own answer to %s (status %d) does not decode: %v", where, path, w.Code, err))
 			}
 		case "swap":
 			l := harness.NewLedger(c13Provider(op.Provider))
